@@ -491,14 +491,20 @@ func runOwCase(rc *RunCtx, c *owCase, ext map[string]string) *Outcome {
 	simrt.ProcMain = owsim.VerifChildMain
 	simrt.PipeOpts = simrt.PipeOptions{}
 	if ext != nil {
-		simrt.PipeOpts = simrt.PipeOptions{Tape: rc.S, ShortReads: w.Bool(60), Latency: w.Bool(50), OSPipeCap: []int{65536, 1, 7, 4096}[w.Choose(4)]}
+		simrt.PipeOpts = simrt.PipeOptions{Tape: rc.S, ShortReads: w.Bool(60), Latency: w.Bool(50), OSPipeCap: []int{65536, 61, 509, 4096}[w.Choose(4)]}
 		smp["pipe"] = fmt.Sprintf("%+v", struct {
 			ShortReads, Latency bool
 			Capacity            int
 		}{simrt.PipeOpts.ShortReads, simrt.PipeOpts.Latency, simrt.PipeOpts.OSPipeCap})
 		smp["split_outputs"] = c.flags.SplitOutputs
 	}
-	s := simrt.Run(rc.T, simrt.Config{TraceCap: 0, DeepPct: 20, MaxSimTime: 1000 * time.Hour}, rc.S, func() {
+	maxSteps := 0 // the simulator's default
+	if ext != nil {
+		// every refill of a small pipe is a scheduling decision: the bound on the number of decisions
+		// must not turn a long transfer into a "no progress" report
+		maxSteps = 4000000
+	}
+	s := simrt.Run(rc.T, simrt.Config{TraceCap: 0, DeepPct: 20, MaxSimTime: 1000 * time.Hour, MaxSteps: maxSteps}, rc.S, func() {
 		owsim.VerifRunSimulation(c.args)
 		retSeq = simrt.NextSeq()
 		// the root process is gone: the operating system closes the pipe ends it held
